@@ -25,19 +25,19 @@ type concOp struct {
 }
 
 type ConcRun struct {
-	Sc       *Scenario
-	H        *Hub
-	S        *Sched
-	Stats    map[string]int64
-	ops      [][]*concOp
-	commits  int
-	commitOf []*concOp // in commit order
-	tainted  map[string]bool
+	Sc             *Scenario
+	H              *Hub
+	S              *Sched
+	Stats          map[string]int64
+	ops            [][]*concOp
+	commits        int
+	commitOf       []*concOp // in commit order
+	tainted        map[string]bool
 	compactStart   int // number of commits before the compaction task took its snapshot
 	compactStarted bool
-	dupLatest      map[string]bool // entities whose newest version (before the concurrent phase) duplicates its predecessor
-	tokens   map[int]uint64      // per reader task: continuation token
-	readers  map[int]*FeedReader // post-hoc verification state
+	dupLatest      map[string]bool     // entities whose newest version (before the concurrent phase) duplicates its predecessor
+	tokens         map[int]uint64      // per reader task: continuation token
+	readers        map[int]*FeedReader // post-hoc verification state
 }
 
 type readLookup struct {
